@@ -299,12 +299,15 @@ def eventName : Nat → String
   | _ => "?"
 
 /-- The query `HTTPTracker.Announce` appends to the tracker URL, in order. -/
-def httpQuery (t : Torrent) (event : Nat) (numWant : Int) (trackerID : String) : List (String × Val) :=
+def httpQuery (t : Torrent) (event : Nat) (numWant : Int) (trackerID : Bytes) : List (String × Val) :=
   [("info_hash", .esc t.infoHash), ("peer_id", .esc t.peerID), ("port", .int t.port),
    ("uploaded", .int t.up), ("downloaded", .int t.down), ("left", .int t.left),
    ("compact", .lit "1"), ("no_peer_id", .lit "1"), ("numwant", .int numWant)] ++
   (if event ≠ 0 then [("event", .lit (eventName event))] else []) ++
-  (if trackerID ≠ "" then [("trackerid", .lit trackerID)] else []) ++
+  -- the tracker id is whatever bytes the tracker sent: percent-escaped like the info hash (fix for finding
+  -- C16-F4 — it used to be appended as it came, so a space, `&`, `#` or a control byte in it broke or rewrote
+  -- every later announce to that tracker)
+  (if trackerID ≠ [] then [("trackerid", .esc trackerID)] else []) ++
   [("key", .hexs (keyBytes t))]
 
 def renderVal : Val → String
